@@ -679,7 +679,7 @@ class EmAd(Base):
             st.obj.set_parameter_names(None)
             self.tw.set_parameter_names(None)
         else:
-            new = ['q%d_%d' % (step, i) for i in free]
+            new = ['%sq%d_%d' % (chr(122 - i % 26), step, i) for i in free]
             st.obj.set_parameter_names(list(new))
             full = self.twin_names()
             for i, nm in zip(free, new):
@@ -750,7 +750,7 @@ class MechAd(Base):
         return res
 
     def rename(self, st, op, step):
-        ren = {st.names[i]: 'q%d_%d' % (step, i) for i in op['pos']}
+        ren = {st.names[i]: '%sq%d_%d' % (chr(122 - i % 26), step, i) for i in op['pos']}
         st.obj.set_parameter_names(dict(ren))
         self.tw.set_parameter_names(dict(ren))
         if self.tw_s is not None:
@@ -895,7 +895,7 @@ class PopAd(Base):
             if max(len(str(v)) for v in self.tw.get_parameter_names()) > 40:
                 return
             self.renamed = True
-            new = ['q%d_%d' % (step, i) for i in free]
+            new = ['%sq%d_%d' % (chr(122 - i % 26), step, i) for i in free]
             st.obj.set_parameter_names(list(new))
             full = [str(v) for v in self.tw.get_parameter_names(exclude_dim_names=True)]
             for i, nm in zip(free, new):
